@@ -123,11 +123,6 @@ def gen_mesh_struct(rng, small=False):
         ranks = list(range(nr))      # every declared rank has its Patch block (class 10 otherwise)
         rng.shuffle(ranks)
         patches = {r: rng.sample(range(ne), rng.randrange(0, ne + 1)) for r in ranks}
-        if not any(patches.values()):
-            # at least one patch element (defect class 9)
-            if not ranks:
-                ranks.append(0)
-            patches[ranks[0]] = [rng.randrange(ne)]
         partitions.append({"name": rng.choice(["", rand_name(rng)]), "prio": rng.choice([None, 0, 1, -3, 17]),
                            "level": rng.choice([None, 0, 1, 4]), "nr": nr, "ne": ne, "ranks": ranks, "patches": patches})
     return {"mesh": m if has_mesh else None, "shape": shape, "dim": dim, "parts": parts, "partitions": partitions}
@@ -412,9 +407,6 @@ def hazardous(text):
                 ks.add("1")      # huge / negative declared count or dimension
             if mm and mm.end() != len(tok):
                 ks.add("5")      # trailing garbage after a number in an attribute
-    names = re.findall(r'<Chart[^>]*name\s*=\s*"\s*([^"]*?)\s*"', text)
-    if len(names) != len(set(names)):
-        ks.add("2")
     if re.search(r'topology\s*=\s*"\s*parent', text):
         ks.add("3")          # topology="parent": mapping indices are used unchecked
     # an interior entity count of zero below a non-zero one (root mesh, or mesh part with its own topology):
@@ -429,19 +421,6 @@ def hazardous(text):
         nums = [int(x.group(0)) if x else 0 for x in nums]
         if any(nums[i] == 0 and any(n > 0 for n in nums[i + 1:]) for i in range(1, len(nums))):
             ks.add("6")
-    # a partition without any patch element: Graph::_render_as_is binds a reference to element 0 of an empty vector
-    for m in re.finditer(r"<Partition\b", text):
-        rest = text[m.end():]
-        gt = rest.find(">")
-        if gt >= 0 and rest[:gt].rstrip().endswith("/"):
-            ks.add("9")
-            continue
-        e = rest.find("</Partition")
-        if e < 0:
-            continue
-        body = rest[gt + 1:e] if gt >= 0 else ""
-        if not any(re.match(r"^\s*[+]?\d", l) for l in body.split("\n")):
-            ks.add("9")
     # fewer Patch blocks than declared ranks (class 10, letter A): PartitionParser::close checks nothing
     for m in re.finditer(r'<Partition\b([^>]*)>', text):
         mm = re.search(r'size\s*=\s*"\s*[+]?(\d+)', m.group(1))
@@ -498,7 +477,7 @@ def mutate(rng, L, st):
     lines = list(L.l)
     idx_of = lambda roles: [i for i, (r, _) in enumerate(lines) if r in roles]
     kinds = ["truncate", "del-line", "dup-line", "count", "index-bound", "dim", "tokens", "number", "xml", "bytes",
-             "bytes", "tokmut", "attr", "swap-lines", "closed", "del-block", "del-block"]
+             "bytes", "tokmut", "attr", "swap-lines", "closed", "del-block", "del-block", "huge-count"]
     kind = rng.choice(kinds)
     tag = "U"
     text = None
@@ -511,6 +490,23 @@ def mutate(rng, L, st):
         # complete up to and including '>' of the root terminator (trailing blanks are irrelevant)
         closing_gt = "\n".join(t for _, t in lines[:rc + 1]).rstrip(" \t\r")
         tag = "R" if cut < len(closing_gt) else "A"
+    elif kind == "huge-count":
+        c = idx_of(("mesh-open", "part-open", "topo-open", "map-open", "attr-open", "ps-open", "patch-open"))
+        i = rng.choice(c) if c else 0
+        role, t = lines[i]
+        ms = [m for m in re.finditer(r'\b(size|dim|rank)(\s*=\s*"\s*)([^"]*?)(\s*")', t)] if c else []
+        if ms:
+            m = rng.choice(ms)
+            toks = m.group(3).split()
+            k = rng.randrange(len(toks))
+            # (an Attribute dimension of 99999999999 makes the real code allocate until the watchdog fires: corpus only)
+            # 2^31 / 2^32 as a *size* make the real code really allocate tens of GB (watchdog): dim / rank only
+            vals = ["-1", "2147483648", "4294967296"] if role == "attr-open" else \
+                ["-1", "-7", "99999999999999", "18446744073709551615"] + \
+                (["4294967296", "2147483648"] if m.group(1) != "size" else [])
+            toks[k] = rng.choice(vals)
+            lines[i] = (role, t[:m.start(3)] + " ".join(toks) + t[m.end(3):])
+            tag = "RKB"
     elif kind == "del-block":
         br = block_ranges(lines)
         if br:
@@ -1004,6 +1000,7 @@ STATS = {"malformed_total": 0, "malformed_past_scanner": 0, "malformed_reached_c
          "known_defect_inputs": {}, "mutation_kinds": {}, "must_reject": 0, "must_accept": 0}
 EXPECT = {}        # case line -> expected dump / events (valid streams)
 KIND = {}          # case line -> mutation kind
+EXPECT_CLASS = {}  # case line -> the documented exception class a (formerly defective) corpus input must end with
 
 
 def outcome_class(out):
@@ -1032,16 +1029,18 @@ CRASH = ("abort", "timeout", "other-exception", "sanitizer-asan", "sanitizer-ubs
 # explained by a class recognised in the *input* gets a "c11-new:" signature and is a VIOLATION.
 K_KINDS = {
     "1": ("abort", "timeout", "other-exception", "sanitizer-asan", "sanitizer-ubsan"),
-    "2": ("abort",),
     "3": ("sanitizer-asan", "abort"),
     "6": ("rterr",),
-    "9": ("sanitizer-ubsan",),
     "4": ("accepted",),
     "5": ("accepted",),
     "A": ("accepted",),
+    # class 1 attached BY CONSTRUCTION (the mutator replaced a count / dimension / rank token by a negative or huge
+    # number): besides crashing, the unchecked value may simply be stored (wrapped), so the input is accepted, the
+    # writer's output is rejected by the reader or the second generation differs
+    "B": ("abort", "timeout", "other-exception", "sanitizer-asan", "sanitizer-ubsan", "accepted", "rterr", "rtdiff"),
 }
-K_ORDER = "1236945A"
-K_NAME = {"A": "10"}
+K_ORDER = "B13645A"
+K_NAME = {"A": "10", "B": "1"}
 
 
 def first_content_line(text):
@@ -1073,6 +1072,8 @@ def oracle_mesh(case, out):
         return "memory error / hang / undocumented termination: " + out[:120]
     if cls == "notype":
         return None
+    if case in EXPECT_CLASS and cls != EXPECT_CLASS[case]:
+        return "expected the documented %s, got %s" % (EXPECT_CLASS[case], out[:80])
     if exp == "R":
         STATS["must_reject"] += 1
         if cls == "ok":
@@ -1374,6 +1375,8 @@ def failure_kind(out, why):
         return "rterr"
     if why and why.startswith("input violating"):
         return "accepted"
+    if why and why.startswith("second generation differs"):
+        return "rtdiff"
     return "other"
 
 
@@ -1421,19 +1424,21 @@ def corpus_cases():
         ("R", H + M + part('<Mapping dim="3">\n0\n3\n</Mapping>\n') + E),                   # F11: dim == size
         ("R", H + M + part('<Mapping dim="2">\n0\n</Mapping>\n' + mp0, 'topology="none" size="2 0 0"') + E),
         ("A", H + M + part(mp0) + E),
-        ("K1", H + M + part(mp0 + '<Attribute name="p" dim="2147483648">\n1\n1\n</Attribute>\n') + E),
-        ("K1", H + M + part(mp0 + '<Attribute name="p" dim="99999999999">\n1\n1\n</Attribute>\n') + E),
-        ("K1", H + M + '<Partition size="-1 4">\n</Partition>\n' + E),
-        ("K1", H + M + '<Partition size="2 -1">\n</Partition>\n' + E),
-        ("K1", H + '<Mesh type="conformal:hypercube:2:2" size="99999999999999 4 1">\n</Mesh>\n' + E),
-        ("K1", H + '<Mesh type="conformal:hypercube:2:2" size="-1 4 1">\n</Mesh>\n' + E),
-        ("K2", H + '<Chart name="c">\n<Circle radius="1" midpoint="0 0" />\n</Chart>\n<Chart name="c">\n'
+        ("RKB", H + M + part(mp0 + '<Attribute name="p" dim="2147483648">\n1\n1\n</Attribute>\n') + E),
+        ("RKB", H + M + part(mp0 + '<Attribute name="p" dim="99999999999">\n1\n1\n</Attribute>\n') + E),
+        ("RKB", H + M + '<Partition size="-1 4">\n</Partition>\n' + E),
+        ("RKB", H + M + '<Partition size="2 -1">\n</Partition>\n' + E),
+        ("RKB", H + '<Mesh type="conformal:hypercube:2:2" size="99999999999999 4 1">\n</Mesh>\n' + E),
+        ("RKB", H + '<Mesh type="conformal:hypercube:2:2" size="-1 4 1">\n</Mesh>\n' + E),
+        ("R", H + '<Chart name="c">\n<Circle radius="1" midpoint="0 0" />\n</Chart>\n<Chart name="c">\n'
                '<Circle radius="1" midpoint="0 0" />\n</Chart>\n' + M + E),
         ("K3", H + M + part(mp0.replace("3", "1") + '<Mapping dim="1">\n7\n</Mapping>\n', 'topology="parent" size="2 1"') + E),
         ("K6", H + '<Mesh type="conformal:hypercube:2:2" size="4 0 1">\n<Vertices>\n0 0\n1 0\n0 1\n1 1\n</Vertices>\n'
                '<Topology dim="1">\n</Topology>\n<Topology dim="2">\n0 1 2 3\n</Topology>\n</Mesh>\n' + E),
-        ("K9", H + M + '<Partition size="3 1">\n<Patch rank="0" size="0">\n</Patch>\n</Partition>\n' + E),
-        ("K9", H + M + '<Partition size="2 4" />\n' + E),
+        ("A", H + M + '<Partition size="3 1">\n<Patch rank="0" size="0">\n</Patch>\n<Patch rank="1" size="0" />\n'
+              '<Patch rank="2" size="0">\n</Patch>\n</Partition>\n' + E),    # fixed K9: element-free partition, no UB
+        ("UKA", H + M + '<Partition size="3 1">\n<Patch rank="0" size="0">\n</Patch>\n</Partition>\n' + E),
+        ("UKA", H + M + '<Partition size="2 4" />\n' + E),
         ("RK4", H + M + part('<Mapping dim="0">\n-1\n</Mapping>\n', 'topology="none" size="1"') + E),
         ("RK5", H + M.replace("0 1 2 3\n", "0 1 2 3x\n") + E),
         ("RK5", H + M.replace('size="4 4 1"', 'size="4x 4 1"') + E),
@@ -1446,6 +1451,10 @@ def corpus_cases():
         ("R", "<FeatMeshFile version=\"1\" mesh=\"conformal:hypercube:2:2\">"),
     ]
     cases = ["mesh %s %s" % (tag, hx(txt)) for tag, txt in c]
+    # fixed K2: a duplicate chart name is now reported with the documented exception
+    for tag, txt in c:
+        if txt.count('<Chart name="c">') == 2:
+            EXPECT_CLASS["mesh %s %s" % (tag, hx(txt))] = "ContentError"
     cases += ["graphdef", "graph 3 0", "graph 0 0", "graph 3 2 1 0 2 1 2",
               "ini 1 " + hx("[a = x&\nb]\n"), "ini 1 " + hx("k = v&\n"), "ini 1 " + hx("}\n"), "ini 1 " + hx("")]
     return cases
